@@ -48,7 +48,10 @@ pub fn generate(g: &mut Gen, thorough: bool) {
                 })
                 .collect();
             g.push(format!("S_C06\tcart\t{e}\t{}", data_of(&geo)), "oracle-geocart", true);
-            let lats: Vec<[f64; 4]> = (0..6).map(|_| [g.rng.uniform(0.01, 1.55), g.rng.uniform(0.01, 1.55), 0.0, 0.0]).collect();
+            let mut lats: Vec<[f64; 4]> = (0..6).map(|_| [g.rng.uniform(0.01, 1.55), g.rng.uniform(0.01, 1.55), 0.0, 0.0]).collect();
+            // the last degree before the pole, where the iterative inverses change regime
+            lats.push([g.rng.uniform(1.5533, 1.5570), g.rng.uniform(1.5570, 1.5620), 0.0, 0.0]);
+            lats.push([g.rng.uniform(1.5620, 1.5670), g.rng.uniform(1.5670, 1.5700), 0.0, 0.0]);
             g.push(format!("S_C06\tlat\t{e}\t{}", data_of(&lats)), "oracle-latitudes", true);
             let gd: Vec<[f64; 4]> = (0..6).map(|_| [g.rng.uniform(-3.1, 3.1), g.rng.uniform(-1.4, 1.4), g.rng.uniform(-3.14, 3.14), g.rng.uniform(10.0, 1.9e7)]).collect();
             g.push(format!("S_C06\tgeod\t{e}\t{}", data_of(&gd)), "oracle-geodesics", true);
@@ -107,14 +110,15 @@ pub fn ell_cases(g: &mut Gen, ells: &[String], rounds: usize) {
         for f in ELL_CONSTANTS {
             g.push(format!("ELL\t{name}\t{f}\t-"), "ell-constants", true);
         }
-        let mut lats = vec![0.0, hp, -hp, 1e-9, -0.5];
+        let mut lats = vec![0.0, hp, -hp, 1e-9, -0.5, 1.5570, -1.5600, 1.5650, 1.5690, -1.5705];
         for _ in 0..rounds {
             lats.push(g.rng.uniform(-1.57, 1.57));
         }
         for x in &lats {
             for f in ELL_LATITUDE_FUNCTIONS {
                 // (the isometric latitude of a pole is infinite: the way back starts from finite values)
-                let x = if f == "latitude_isometric_to_geographic" { x * 3.0 } else { *x };
+                // (an isometric latitude: 5 is 89.2 degrees, 10 is 89.995 degrees, 40 is the pole to machine precision)
+                let x = if f == "latitude_isometric_to_geographic" { (x / hp) * (x / hp).abs() * *g.rng.pick(&[3.0, 5.0, 5.5, 7.0, 12.0, 40.0]) } else { *x };
                 g.push(format!("ELL\t{name}\t{f}\t{}", fbits(x)), "ell-latitude-functions", true);
             }
             g.push(format!("ELL\t{name}\tmeridian_distance_to_latitude\t{}", fbits(x * 6.3e6)), "ell-latitude-functions", true);
